@@ -60,6 +60,28 @@ type Combo struct {
 	Percent   *Amt              `json:"percent,omitempty"`
 	Surcharge *Amt              `json:"surcharge,omitempty"`
 	Ext       map[string]string `json:"ext,omitempty"`
+	// ExtNone: HOW "no extensions" is written when Ext is empty — the states the JSON reader
+	// can leave in tax.Combo.Ext for a combo that carries no extension (see NoneSpellings).
+	ExtNone string `json:"ext_none,omitempty"`
+}
+
+// NoneSpellings are the spellings of "no extensions" on a combo.  A JSON document can say it
+// with the member absent or `"ext": null` (the reader leaves a nil map: ""), with `"ext": {}`
+// (an empty map that is not nil: "empty") or with members whose value is the empty text,
+// `"ext": {"k": ""}`, which normalisation drops ("blank": one such member, "blanks": two).
+// All four say the same thing: the set of extensions, BY CONTENT, is empty.
+var NoneSpellings = []string{"", "empty", "blank", "blanks"}
+
+func noExtensions(form string) tax.Extensions {
+	switch form {
+	case "empty":
+		return tax.Extensions{}
+	case "blank":
+		return tax.Extensions{"none": ""}
+	case "blanks":
+		return tax.Extensions{"none": "", "nothing-here": ""}
+	}
+	return nil
 }
 
 // LineAdj is a line discount or charge.
@@ -154,6 +176,14 @@ func combos(cs []Combo) tax.Set {
 			for k, v := range c.Ext {
 				tc.Ext[cbc.Key(k)] = cbc.Code(v)
 			}
+			// blank members next to real ones: the content is the real ones
+			for k, v := range noExtensions(c.ExtNone) {
+				if _, has := tc.Ext[k]; !has {
+					tc.Ext[k] = v
+				}
+			}
+		} else {
+			tc.Ext = noExtensions(c.ExtNone)
 		}
 		s[i] = tc
 	}
